@@ -26,10 +26,12 @@ EXTENDS Integers, Sequences, FiniteSets
 CONSTANTS FW,        \* foreign waker slots
           Rec,       \* record ids (naturals, allocated in increasing order)
           Thread,    \* threads; 1 is the polling thread
+          Orig,      \* the caller's wakers (1..n): successive polls may come with different wakers
           Deviations \* subset of {"release_per_handle"}
 
-VARIABLES ocount,   \* clones of the original held by the foreign side
-          owakes,   \* how often the original was woken
+VARIABLES ocount,   \* [Orig -> Int] clones of each original held by the foreign side
+          owakes,   \* [Orig -> Nat] how often each original was woken
+          cur,      \* the waker the current (or last) poll was entered with
           inPoll,   \* a poll is in progress (the view waker exists)
           rec,      \* [Rec -> [rc : Nat, held : BOOLEAN, rel : Nat, made : BOOLEAN]]
           fw,       \* [FW -> [r : Rec \cup {0}, own : Thread]]
@@ -38,17 +40,20 @@ VARIABLES ocount,   \* clones of the original held by the foreign side
                     \* was woken by the last action; -1 if the last action was not a wake.  A wake runs while the
                     \* clone it goes through is still held: "nothing touches the original after [they] are gone"
 
-vars == <<ocount, owakes, inPoll, rec, fw, touched, seen>>
+vars == <<ocount, owakes, cur, inPoll, rec, fw, touched, seen>>
 
-NoRec == [rc |-> 0, held |-> FALSE, rel |-> 0, made |-> FALSE]
+NoRec == [rc |-> 0, held |-> FALSE, rel |-> 0, made |-> FALSE, orig |-> 0]
+Inc(f, o) == [f EXCEPT ![o] = @ + 1]
+Dec(f, o) == [f EXCEPT ![o] = @ - 1]
 Unmade == {r \in Rec : ~rec[r].made}
 MinOf(S) == CHOOSE x \in S : \A y \in S : x <= y
 IsFree(w) == fw[w].r = 0
 Owns(t, w) == fw[w].r # 0 /\ fw[w].own = t
 
 Init ==
-  /\ ocount = 0
-  /\ owakes = 0
+  /\ ocount = [o \in Orig |-> 0]
+  /\ owakes = [o \in Orig |-> 0]
+  /\ cur = CHOOSE o \in Orig : TRUE
   /\ inPoll = FALSE
   /\ rec = [r \in Rec |-> NoRec]
   /\ fw = [w \in FW |-> [r |-> 0, own |-> 1]]
@@ -56,35 +61,35 @@ Init ==
   /\ seen = -1
 
 (* the caller enters poll()/poll_next()/poll_ready()...: CRefWaker::from(cx.waker()) *)
-PollBegin == /\ ~inPoll /\ inPoll' = TRUE
-             /\ UNCHANGED <<ocount, owakes, rec, fw, touched>>
+PollBegin(o) == /\ ~inPoll /\ inPoll' = TRUE /\ o \in Orig /\ cur' = o
+                /\ UNCHANGED <<ocount, owakes, rec, fw, touched>>
 
 (* the callee returns; the view waker is gone (its drop slot is a no-op)       *)
 PollEnd == /\ inPoll /\ inPoll' = FALSE
-           /\ UNCHANGED <<ocount, owakes, rec, fw, touched>>
+           /\ UNCHANGED <<ocount, owakes, cur, rec, fw, touched>>
 
 (* cx.waker().clone() inside the poll (task/mod.rs:128-133): one real clone of  *)
 (* the original, wrapped into a fresh record with one handle                    *)
 ViewClone(w) ==
   /\ inPoll /\ IsFree(w) /\ Unmade # {}
   /\ LET r == MinOf(Unmade) IN
-       /\ rec' = [rec EXCEPT ![r] = [rc |-> 1, held |-> TRUE, rel |-> 0, made |-> TRUE]]
+       /\ rec' = [rec EXCEPT ![r] = [rc |-> 1, held |-> TRUE, rel |-> 0, made |-> TRUE, orig |-> cur]]
        /\ fw' = [fw EXCEPT ![w] = [r |-> r, own |-> 1]]
-  /\ ocount' = ocount + 1
-  /\ UNCHANGED <<owakes, inPoll, touched>>
+  /\ ocount' = Inc(ocount, cur)
+  /\ UNCHANGED <<owakes, cur, inPoll, touched>>
 
 (* cx.waker().wake_by_ref() inside the poll (task/mod.rs:134-137)               *)
 ViewWakeByRef ==
   /\ inPoll
-  /\ owakes' = owakes + 1
-  /\ UNCHANGED <<ocount, inPoll, rec, fw, touched>>
+  /\ owakes' = Inc(owakes, cur)
+  /\ UNCHANGED <<ocount, cur, inPoll, rec, fw, touched>>
 
 (* clone of a foreign waker (task/mod.rs:55-60): share the record                *)
 FClone(t, w, w2) ==
   /\ Owns(t, w) /\ IsFree(w2)
   /\ rec' = [rec EXCEPT ![fw[w].r].rc = @ + 1]
   /\ fw' = [fw EXCEPT ![w2] = [r |-> fw[w].r, own |-> t]]
-  /\ UNCHANGED <<ocount, owakes, inPoll, touched>>
+  /\ UNCHANGED <<ocount, owakes, cur, inPoll, touched>>
 
 (* giving up one handle: the inner clone of the original is released when the    *)
 (* last handle of the record goes (ideal), or on every handle (deviation)        *)
@@ -95,8 +100,8 @@ ReleaseHandle(w) ==
   /\ rec' = [rec EXCEPT ![r] = [rc |-> @.rc - 1,
                                  held |-> IF doRel THEN FALSE ELSE @.held,
                                  rel |-> IF doRel THEN @.rel + 1 ELSE @.rel,
-                                 made |-> TRUE]]
-  /\ ocount' = IF doRel THEN ocount - 1 ELSE ocount
+                                 made |-> TRUE, orig |-> @.orig]]
+  /\ ocount' = IF doRel THEN Dec(ocount, rec[r].orig) ELSE ocount
   /\ fw' = [fw EXCEPT ![w].r = 0]
 
 Touch(w) == IF rec[fw[w].r].held THEN touched ELSE touched + 1
@@ -104,31 +109,31 @@ Touch(w) == IF rec[fw[w].r].held THEN touched ELSE touched + 1
 (* wake by value: wakes the original once and gives up the handle                *)
 FWake(t, w) ==
   /\ Owns(t, w)
-  /\ owakes' = owakes + 1
+  /\ owakes' = Inc(owakes, rec[fw[w].r].orig)   \* the waker it was cloned from, whatever the current poll uses
   /\ touched' = Touch(w)
   /\ ReleaseHandle(w)
-  /\ UNCHANGED inPoll
+  /\ UNCHANGED <<inPoll, cur>>
 
 FWakeByRef(t, w) ==
   /\ Owns(t, w)
-  /\ owakes' = owakes + 1
+  /\ owakes' = Inc(owakes, rec[fw[w].r].orig)
   /\ touched' = Touch(w)
-  /\ UNCHANGED <<ocount, inPoll, rec, fw>>
+  /\ UNCHANGED <<ocount, cur, inPoll, rec, fw>>
 
 FDrop(t, w) ==
   /\ Owns(t, w)
   /\ touched' = IF "release_per_handle" \in Deviations THEN Touch(w) ELSE touched
   /\ ReleaseHandle(w)
-  /\ UNCHANGED <<owakes, inPoll>>
+  /\ UNCHANGED <<owakes, cur, inPoll>>
 
 (* send a foreign waker to another thread (Waker is Send)                        *)
 Give(t, w, u) ==
   /\ Owns(t, w) /\ u # t
   /\ fw' = [fw EXCEPT ![w].own = u]
-  /\ UNCHANGED <<ocount, owakes, inPoll, rec, touched>>
+  /\ UNCHANGED <<ocount, owakes, cur, inPoll, rec, touched>>
 
 Core(e) ==
-  \/ e.op = "PollBegin"     /\ PollBegin
+  \/ e.op = "PollBegin"     /\ PollBegin(e.o)
   \/ e.op = "PollEnd"       /\ PollEnd
   \/ e.op = "ViewClone"     /\ ViewClone(e.w)
   \/ e.op = "ViewWakeByRef" /\ ViewWakeByRef
@@ -140,18 +145,20 @@ Core(e) ==
 
 IsWake(e) == e.op \in {"ViewWakeByRef", "FWake", "FWakeByRef"}
 (* the original is woken before the handle that carries the wake is given up: it sees every clone still held *)
-Do(e) == Core(e) /\ seen' = IF IsWake(e) THEN ocount ELSE -1
+Woken(e) == IF e.op = "ViewWakeByRef" THEN cur ELSE rec[fw[e.w].r].orig
+Do(e) == Core(e) /\ seen' = IF IsWake(e) THEN ocount[Woken(e)] ELSE -1
 
 (* observation: reference count of the original relative to its base, its wake  *)
 (* counter, and which record each foreign waker points at (Waker::data())        *)
-Proj == [ocount |-> ocount, owakes |-> owakes, inPoll |-> inPoll, seen |-> seen,
+Proj == [ocount |-> [o \in Orig |-> ocount[o]], owakes |-> [o \in Orig |-> owakes[o]], inPoll |-> inPoll, seen |-> seen,
          fw |-> [w \in FW |-> fw[w].r]]
 
 (***************************************************************************)
 (* Properties (C19)                                                        *)
 (***************************************************************************)
 TypeOK ==
-  /\ ocount \in Int /\ owakes \in Nat /\ inPoll \in BOOLEAN /\ seen \in Int
+  /\ \A o \in Orig : ocount[o] \in Int /\ owakes[o] \in Nat
+  /\ cur \in Orig /\ inPoll \in BOOLEAN /\ seen \in Int
   /\ \A w \in FW : fw[w].r \in Rec \cup {0} /\ fw[w].own \in Thread
 
 RcExact == \A r \in Rec : rec[r].rc = Cardinality({w \in FW : fw[w].r = r})
@@ -160,11 +167,12 @@ RcExact == \A r \in Rec : rec[r].rc = Cardinality({w \in FW : fw[w].r = r})
 ReleasedAtMostOnce == \A r \in Rec : rec[r].rel <= 1
 ReleasedWhenUnreferenced == \A r \in Rec : rec[r].made => (rec[r].rel = 1 <=> rec[r].rc = 0)
 (* ... so the original's count is its base plus the records still referenced     *)
-CountExact == ocount = Cardinality({r \in Rec : rec[r].rc > 0})
+CountExact == \A o \in Orig : ocount[o] = Cardinality({r \in Rec : rec[r].rc > 0 /\ rec[r].orig = o})
 (* nothing touches the original through a clone that is already gone             *)
 NeverTouchedAfterRelease == touched = 0
 HeldWhileReferenced == \A w \in FW : fw[w].r # 0 => rec[fw[w].r].held
 
 (* waking wakes the original exactly once per wake                               *)
-WakeOncePerWake == [][owakes' \in {owakes, owakes + 1}]_vars
+WakeOncePerWake == [][\/ owakes' = owakes
+                        \/ \E o \in Orig : owakes' = Inc(owakes, o)]_vars
 =============================================================================
